@@ -35,6 +35,7 @@ import io
 import itertools
 import json
 import pickle
+import warnings
 
 import numpy as np
 
@@ -157,6 +158,22 @@ UNITS = ["u0", "u1", "u2"]
 
 
 # ----------------------------------------------------------------------------- reference model
+MODE_ACTIVE = [False]  # a global mode (warnings as errors, np.errstate raise) is switched on for the LIBRARY call
+
+
+def _neutral(fn):
+    """The reference model never runs under a global mode of the process: its arithmetic is shielded."""
+
+    def wrapper(*a, **k):
+        if not MODE_ACTIVE[0]:
+            return fn(*a, **k)
+        with warnings.catch_warnings(), np.errstate(all="ignore"):
+            warnings.simplefilter("ignore")
+            return fn(*a, **k)
+
+    return wrapper
+
+
 class Model:
     """Nested Python lists of float64 arrays (or None), field list, unit list, metadata dict.
     No operation mutates an array in place, so clones may share arrays."""
@@ -220,14 +237,17 @@ class Model:
     def total_rows(self):
         return sum(a.shape[0] for _, a in self.populated())
 
+    @_neutral
     def column(self, fi):
         cols = [a[:, fi] for _, a in self.populated()]
         return np.concatenate(cols) if cols else np.empty((0,))
 
+    @_neutral
     def stacked(self):
         arrs = [a for _, a in self.populated()]
         return np.vstack(arrs) if arrs else np.empty((0, self.nf))
 
+    @_neutral
     def add(self, names):
         self._bytes = None
         self.fields += list(names)
@@ -235,6 +255,7 @@ class Model:
         for c, a in self.populated():
             self.put(c, np.concatenate([a, np.zeros((a.shape[0], len(names)))], axis=1))
 
+    @_neutral
     def remove(self, names):
         drop = {n for n in names if n in self.fields}
         keep = [i for i, f in enumerate(self.fields) if f not in drop]
@@ -244,6 +265,7 @@ class Model:
         for c, a in self.populated():
             self.put(c, np.stack([a[:, i] for i in keep], axis=1) if keep else np.empty((a.shape[0], 0)))
 
+    @_neutral
     def arith(self, fi, op, operand):
         for c, a in self.populated():
             b = a.copy()
@@ -251,6 +273,7 @@ class Model:
             b[:, fi] = {"add": col + operand, "sub": col - operand, "mul": col * operand, "div": col / operand}[op]
             self.put(c, b)
 
+    @_neutral
     def set_flat(self, fi, values):
         cur = 0
         for c, a in self.populated():
@@ -264,7 +287,7 @@ class Model:
         if len(set(self.fields)) != len(self.fields) or len(self.units) != len(self.fields):
             raise Broken(f"reference model broke its own schema invariant: {self.fields} / {self.units}")
         for c, a in self.populated():
-            if a.ndim != 2 or a.shape[1] != self.nf or a.dtype != np.float64:
+            if a.ndim != 2 or a.shape[1] != self.nf or a.dtype.kind not in "fiub":
                 raise Broken(f"reference model cell {c} has shape {a.shape}, {self.nf} fields")
 
 
@@ -897,6 +920,9 @@ def judge_refusal(name, footprint, S):
             fi = footprint[1]
             others = [k for k in range(old.shape[1]) if k != fi]
             reqd = footprint[2].get(c)
+            if reqd is not None and old.dtype != np.float64:
+                with np.errstate(all="ignore"):
+                    reqd = np.asarray(reqd).astype(old.dtype)  # what the write would store in a cell of that dtype
             if np.array_equal(o[:, others], old[:, others]) and all(o[r, fi] == old[r, fi] or (reqd is not None and o[r, fi] == reqd[r]) for r in range(old.shape[0])):
                 new[c] = np.array(o, copy=True)
                 continue
@@ -1331,9 +1357,15 @@ def build_init(spec, seed):
     else:
         rows = tuple(a)
         shape = (len(rows),)
+        dt = kind[5:] if kind.startswith("data_") else None  # "data_int64" / "data_uint8" / "data_bool": integer-typed cells
+
+        def cast(x):
+            if dt is None:
+                return x
+            return (np.floor(x) % 2 == 1) if dt == "bool" else np.floor(x).astype(dt)
 
         def mk(base):
-            arrs = [val(T, base + i, n, nf) for i, n in enumerate(rows)]
+            arrs = [cast(val(T, base + i, n, nf)) for i, n in enumerate(rows)]
             if nf == 2:
                 vec = Vector.from_data(arrs, fields=FIELDS[:2], units=UNITS[:2], name="ragged")
                 mod = Model(shape, FIELDS[:2], UNITS[:2])
@@ -1344,7 +1376,7 @@ def build_init(spec, seed):
                 vec = Vector.from_data(arrs, fields=list(FIELDS))
                 mod = Model(shape, FIELDS, ["none"] * 3)
             for i, n in enumerate(rows):
-                mod.put((i,), val(T, base + i, n, nf))
+                mod.put((i,), cast(val(T, base + i, n, nf)))
             return vec, mod
 
         S.v, S.mv = mk(VID_INIT_V)
@@ -1743,6 +1775,384 @@ def dev_chunk(item, seed=0):
     return t
 
 
+# ----------------------------------------------------------------------------- global modes of the process
+MODES = ("warnings_error", "errstate_raise")
+MODE_INITS = [("data", (2, 0, 3), 2), ("one", (2, 2), 2), ("shape", (2, 2), 2), ("data_int64", (2, 0, 3), 2), ("data_uint8", (2, 0, 3), 2), ("data_bool", (2, 0, 3), 2)]
+
+
+@contextlib.contextmanager
+def mode_ctx(mode):
+    if mode == "warnings_error":
+        with warnings.catch_warnings():
+            warnings.simplefilter("error")
+            yield
+    elif mode == "errstate_raise":
+        with np.errstate(all="raise"):
+            yield
+    else:
+        yield
+
+
+def observed_model(vec):
+    shape = tuple(vec.shape)
+    m = Model(shape, list(vec.fields), list(vec.units))
+    for c, a in zip(m.cells(), read_cells(vec, shape, m.cells())):
+        m.put(c, np.array(a, copy=True) if isinstance(a, np.ndarray) else None)
+    m.meta = json.loads(json.dumps(dict(vec.metadata), default=repr))
+    return m
+
+
+def judge_mix(who, vec, pre, post):
+    """An operation that RAISED (here: because a global mode turned a warning / floating-point flag into an exception).
+    Round-3 footprint oracle in its general form, plus the structural invariants: the object's schema is the one before
+    or the one the operation asked for; every cell is its old value, the requested value, or entry by entry a mix of
+    the two; and — whatever happened — fields are unique and 1:1 with units and every populated cell is 2-D with one
+    column per field (a half-applied STRUCTURAL change breaks the property's own invariants). (relation, message) / None."""
+    if vec is None:
+        return None if pre is None else ("refused_operation_stays_in_footprint", f"{who}: the object is gone")
+    cands = [m for m in (pre, post) if m is not None]
+    shape, fields, units = tuple(vec.shape), list(vec.fields), list(vec.units)
+    cells = read_cells(vec, shape, list(itertools.product(*[range(n) for n in shape])))
+    if len(set(fields)) != len(fields) or len(units) != len(fields) or vec.num_fields != len(fields):
+        return ("structural_invariants_hold_after_refused_operation", f"{who}: fields {fields} units {units} num_fields {vec.num_fields}")
+    for c, o in zip(itertools.product(*[range(n) for n in shape]), cells):
+        if o is not None and (not isinstance(o, np.ndarray) or o.ndim != 2 or o.shape[1] != len(fields)):
+            return ("structural_invariants_hold_after_refused_operation", f"{who}: cell {c} has shape {getattr(o, 'shape', None)} in a Vector with {len(fields)} fields {fields} (field names / units were changed, the cells were not)")
+    try:
+        whole = vec.flatten()
+        if whole.ndim != 2 or whole.shape[1] != len(fields):
+            return ("structural_invariants_hold_after_refused_operation", f"{who}: flatten() has shape {whole.shape} with {len(fields)} fields")
+        for f in fields:
+            vec[f].flatten()
+    except Exception as e:
+        return ("structural_invariants_hold_after_refused_operation", f"{who}: flatten raised {type(e).__name__}: {str(e)[:100]} with fields {fields}")
+    ok = [m for m in cands if m.shape == shape and m.fields == fields and m.units == units]
+    if not ok or not any(dict(vec.metadata) == m.meta for m in cands):
+        return ("refused_operation_stays_in_footprint", f"{who}: schema / metadata {shape} {fields} {units} {dict(vec.metadata)} is neither the old nor the requested one")
+    for c, o in zip(ok[0].cells(), cells):
+        alts = [m.get(c) for m in ok]
+        if any(same_cell(o, a) and (o is None or o.dtype == a.dtype) for a in alts):
+            continue
+        arrs = [a for a in alts if isinstance(a, np.ndarray)]
+        if isinstance(o, np.ndarray) and arrs and len(arrs) == len(alts) and all(a.shape == o.shape for a in arrs):
+            mixed = np.zeros(o.shape, dtype=bool)
+            for a in arrs:
+                mixed |= o == a
+            if mixed.all():
+                continue
+        return ("refused_operation_stays_in_footprint", f"{who}: cell {c} = {show(o)} is neither the old value, nor the requested one, nor a mix of the two ({[show(a) for a in alts]})")
+    return None
+
+
+def mode_event(blob, M, ev, mode, hist, spec, seed, t, counts, share):
+    """One event of the alphabet under a global mode. Not raising: exactly the default-mode result. Raising: refused
+    operation -> judge_mix on every object, then the model follows the observed state and the observers run."""
+    T, F = tables(seed)
+    ref = load(blob, M, None)
+    if apply_event(ref, ev, T, F) is not None:
+        return  # does not succeed under the default mode either: judged by the ordinary search
+    post = ref.models()
+    S = load(blob, M, None)
+    pre = S.models()
+    MODE_ACTIVE[0] = True
+    try:
+        with mode_ctx(mode):
+            imm = apply_event(S, ev, T, F)
+    finally:
+        MODE_ACTIVE[0] = False
+    counts["transitions"] += 1
+    counts["ev_mode_" + mode] += 1
+    t.n += 1
+    shape = S.mv.shape
+    h2 = hist + [ev]
+    case = {"init": list(spec), "history": [list(e) for e in hist], "mode": mode, "mode_event": list(ev)}
+    where = f"init {spec!r} after {hist!r}, then {ev!r} under {mode}"
+    cell_dtypes = sorted({a.dtype.name for _, a in pre[0].populated()})
+
+    def fail(rel, msg, extra=None):
+        cls = {"relation": rel, "event": ev[0], "mode": mode, "ndim": len(shape), "cell_dtypes": "+".join(cell_dtypes) or "none"}
+        cls.update(extra or {})
+        t.fail(cls, case, f"{where}: {msg}")
+
+    raised = imm is not None and imm[0] == "legitimate_operation_raised"
+    if not raised:
+        if imm is not None:
+            fail(imm[0], imm[1])
+            return
+        S.mv, S.mc, S.mw, S.ms, S.sk = post
+        fl = []
+        compare(S, ev, fl)
+        for rel, msg, who in fl:
+            fail(rel, f"not the default-mode result: {msg}", {"object": who})
+        return
+    counts[f"mode_{mode}_turned_into_exception_{ev[0]}"] += 1
+    names = ("main", "copy", "independent", "slice")
+    live = (S.v, S.c, S.w, S.s)
+    bad = False
+    for who, vec, pm, qm in zip(names, live, pre[:4], post[:4]):
+        try:
+            p = judge_mix(who, vec, pm, qm)
+        except Exception as e:
+            p = ("structural_invariants_hold_after_refused_operation", f"{who}: unreadable: {type(e).__name__}: {str(e)[:100]}")
+        if p:
+            fail(p[0], f"{imm[1]} — afterwards {p[1]}", {"object": who})
+            bad = True
+    if bad:
+        return
+    S.mv, S.mc, S.mw = observed_model(S.v), (observed_model(S.c) if S.c is not None else None), observed_model(S.w)
+    S.ms = observed_model(S.s) if S.s is not None else None
+    fl = []
+    S.parts = compare(S, None, [])[0]
+    observe(S, "mini", fl, counts)
+    roundtrip(S, fl, counts, whole=True)
+    for rel, msg, extra in fl:
+        fail(rel, f"after the exception: {msg}", extra)
+
+
+def mode_shard(item, seed=0):
+    """item = (index into MODE_INITS, mode or 'default'). States: the initial state and its depth-1 successors (default
+    mode); from each of them every enabled event under the mode, and the battery of refused operations under the mode."""
+    mi, mode = item
+    spec = MODE_INITS[mi]
+    t = Tally()
+    counts = t.extra
+    T, F = tables(seed)
+    EV = events_for(shape_of(spec))
+    S, key, share, ok = run_history(spec, [], seed, t, counts)
+    if not ok:
+        return t
+    states = {key}
+    roots = [([], dump(S), frozen_models(S), share)]
+    quiet = Tally()
+    for ei, S2, k2, sh2 in expand_one(roots[0][1], roots[0][2], share, [], EV, seed, spec, quiet if mode != "default" else t, (quiet if mode != "default" else t).extra):
+        if k2 not in states:
+            states.add(k2)
+            roots.append(([EV[ei]], dump(S2), frozen_models(S2), sh2))
+    for hist, blob, M, sh in roots:
+        probe = State()
+        probe.mv, probe.mc, probe.mw, probe.ms, probe.sk = M
+        for ev in EV:
+            if not enabled(ev, probe):
+                continue
+            if mode == "default":
+                if hist:  # depth 2 under the default mode (integer / bool cells are not part of the main search)
+                    S2 = load(blob, M, target_of(ev))
+                    good, k2, sh2 = step(S2, ev, seed, hist + [ev], spec, t, counts, None, sh)
+                    counts["transitions"] += 1
+                    counts["ev_" + ev[0]] += 1
+                    t.n += 1
+                    if good and k2 not in states:
+                        states.add(k2)
+                        run_observers(S2, "mini", hist + [ev], spec, t, counts, sh2)
+            else:
+                mode_event(blob, M, ev, mode, hist, spec, seed, t, counts, sh)
+        if mode != "default":
+            with mode_ctx(mode):
+                refusal_battery(lambda: load(blob, M, None), T, F, hist, spec, t, counts, sh, case_extra={"mode": mode})
+    t.outcomes.add(packed(states))
+    counts["seam_data_fallback"] += SEAM["data_fallback"]
+    SEAM["data_fallback"] = 0
+    return t
+
+
+# ----------------------------------------------------------------------------- width: many fields
+WIDTHS = (9, 10, 12, 17, 33)
+ORDERS = ("sorted", "reversed", "shuffle_a", "shuffle_b")
+CONTAINERS = ("list", "tuple", "set", "dict_keys")
+_WT = {}
+
+
+def wide_values(seed, cell, rows, cols):
+    """64*column + 8*row + 2*cell + noise/4: any permutation of columns, rows or cells shows."""
+    if seed not in _WT:
+        rng = np.random.default_rng([int(seed), 11, 4])
+        _WT[seed] = 64.0 * np.arange(40)[None, None, :] + 8.0 * np.arange(3)[None, :, None] + 2.0 * np.arange(2)[:, None, None] + 1.0 + rng.integers(0, 4, size=(2, 3, 40)) / 4.0
+    return np.array(_WT[seed][cell, :rows, :cols], copy=True)
+
+
+def wide_build(n, seed):
+    fields = [f"f{i}" for i in range(n)]
+    units = [f"u{i}" for i in range(n)]
+    v = V().from_shape((2,), fields=list(fields), units=list(units))
+    m = Model((2,), fields, units)
+    for cell, rows in ((0, 3), (1, 2)):
+        v[cell] = wide_values(seed, cell, rows, n)
+        m.put((cell,), wide_values(seed, cell, rows, n))
+    return v, m
+
+
+def order_names(names, order):
+    names = list(names)
+    if order == "sorted":
+        return names
+    if order == "reversed":
+        return names[::-1]
+    perm = np.random.default_rng([11, 4, 1 if order == "shuffle_a" else 2, len(names)]).permutation(len(names))  # harness-owned, fixed
+    return [names[i] for i in perm]
+
+
+def contain(names, cont):
+    if cont == "str":
+        return names[0]
+    if cont == "list":
+        return list(names)
+    if cont == "tuple":
+        return tuple(names)
+    if cont == "set":
+        return set(names)
+    return dict.fromkeys(names).keys()
+
+
+def keep_families(n, tier):
+    """Keep-sets (positions) for removals that leave few survivors, incl. survivors of index >= 8."""
+    fam = set()
+    for k in (2, 3, 4, 5):
+        for stride in (1, 2, 3, 5, 7, 8, 9, 11, 16):
+            for j in range(n):
+                K = tuple(j + i * stride for i in range(k))
+                if K[-1] < n:
+                    fam.add(K)
+    full3 = n <= 17 or tier == "thorough"
+    if full3:
+        fam |= set(itertools.combinations(range(n), 3))
+    if n <= 12:
+        fam |= set(itertools.combinations(range(n), 4))
+    return sorted(fam, key=lambda K: (len(K), K))
+
+
+def variants(positions):
+    """(order, container) spellings of one set of names: 4 orders as a list, 3 more containers in sorted order."""
+    if len(positions) == 1:
+        return [("sorted", c) for c in ("str",) + CONTAINERS]
+    return [(o, "list") for o in ORDERS] + [("sorted", c) for c in CONTAINERS[1:]]
+
+
+def width_cases(n, tier):
+    """All op sequences for width n: each a list of ops (kind, positions in the CURRENT field list, order, container)."""
+    allp = tuple(range(n))
+    seqs = []
+    removals = [(i,) for i in allp] + list(itertools.combinations(allp, 2))
+    removals += [tuple(p for p in allp if p not in K) for K in ([(i,) for i in allp] + list(itertools.combinations(allp, 2)) + keep_families(n, tier))]
+    seen = set()
+    for R in removals:
+        if R in seen or not R or len(R) == n:
+            continue
+        seen.add(R)
+        for o, c in variants(R):
+            seqs.append([("rm", R, o, c)])
+    for k in (1, 3):
+        for o, c in variants(tuple(range(k))):
+            seqs.append([("add", tuple(range(k)), o, c)])
+    for i in allp:
+        seqs.append([("setf", (i,), "sorted", "str")])
+        if i >= 7:
+            seqs.append([("arith", (i,), "sorted", "str")])
+    seqs.append([("copy_rm", (1, 8), "reversed", "list")])
+    # depth 2: a removal first, then every field-set operation on what is left
+    firsts = [tuple(p for p in allp if p not in K) for K in keep_families(n, "quick") if len(K) in (2, 3, 4, 5) and (K[-1] >= 8) and (K[0] + K[-1]) % 3 == 0]
+    firsts += [(0,), (8,), (n - 1,)]
+    for R in firsts:
+        left = n - len(R)
+        first = ("rm", R, "shuffle_a", "list")
+        for i in range(left):
+            seqs.append([first, ("rm", (i,), "sorted", "str")])
+            seqs.append([first, ("rm", tuple(p for p in range(left) if p != i), "reversed", "tuple")] if left > 1 else [first])
+            seqs.append([first, ("setf", (i,), "sorted", "str")])
+        for o, c in (("sorted", "list"), ("reversed", "list"), ("sorted", "set"), ("sorted", "tuple")):
+            seqs.append([first, ("add", (0, 1, 2), o, c)])
+        seqs.append([first, ("arith", (left - 1,), "sorted", "str")])
+        seqs.append([first, ("copy_rm", (0,), "sorted", "list")])
+    return seqs
+
+
+def wide_check(v, m, who="main"):
+    """Exact comparison with the model, and every field BY NAME: v[name].flatten() is that field's column."""
+    d = None
+    shape, fields, units, cells, meta = read_one(v, m)
+    if view_bytes(shape, fields, units, cells, meta) != model_bytes(m):
+        d = diff_one(who, v, m) or ("state_equals_model", f"{who}: canonical bytes differ from the model")
+    if d is None:
+        for fi, f in enumerate(m.fields):
+            got = v[f].flatten()
+            exp = m.column(fi)
+            if got.shape != exp.shape or not np.array_equal(got, exp):
+                return ("field_by_name_is_that_fields_column", f"v[{f!r}].flatten() = {got.tolist()}, model says {exp.tolist()}")
+        whole = v.flatten()
+        if whole.shape != m.stacked().shape or not np.array_equal(whole, m.stacked()):
+            return ("flatten_is_row_major_concatenation", f"v.flatten() differs from the model")
+    return d
+
+
+def run_wide(n, seq, seed, t, counts):
+    v, m = wide_build(n, seed)
+    _, F = tables(seed)
+    done = []
+    for kind, pos, order, cont in seq:
+        pos = tuple(pos)
+        done.append([kind, list(pos), order, cont])
+        names = order_names([m.fields[i] for i in pos], order) if kind != "add" else order_names([f"n{i}" for i in pos], order)
+        obj = contain(names, cont)
+        other = None
+        try:
+            if kind == "rm":
+                quiet_remove(v, obj)
+                m.remove([obj] if isinstance(obj, str) else list(obj))
+            elif kind == "add":
+                given = [obj] if isinstance(obj, str) else list(obj)  # the order in which the container hands the names out
+                v.add_fields(obj)
+                m.add(given)
+            elif kind == "setf":
+                vals = np.array(F[0, : m.total_rows()], copy=True)
+                v[names[0]] = vals
+                m.set_flat(pos[0], F[0])
+            elif kind == "arith":
+                v[names[0]] += 2
+                m.arith(pos[0], "add", 2)
+            elif kind == "copy_rm":
+                c = v.copy()
+                mc = m.clone()
+                quiet_remove(c, obj)
+                mc.remove(list(obj))
+                other = (c, mc)
+            else:
+                raise ValueError(kind)
+            problem = wide_check(v, m)
+            if problem is None and other is not None:
+                problem = wide_check(other[0], other[1], "copy")
+        except (Broken, AssertionError):
+            raise
+        except Exception as e:
+            problem = ("legitimate_operation_raised", f"raised {type(e).__name__}: {str(e)[:120]}")
+        counts["transitions"] += 1
+        counts["ev_width_" + kind] += 1
+        t.n += 1
+        if problem:
+            survivors = len(m.fields)
+            cls = {"relation": problem[0], "event": kind, "dimension": "width", "num_fields": n, "names_order": order, "container": cont, "depth": len(done)}
+            t.fail(cls, {"width": n, "ops": done}, f"{n} fields f0..f{n - 1}, ops {done}: {problem[1][:600]} (fields now {list(m.fields)[:12]}{'...' if survivors > 12 else ''})")
+            return None
+    shape, fields, units, cells, meta = read_one(v, m)
+    return int.from_bytes(hashlib.blake2b(view_bytes(shape, fields, units, cells, meta), digest_size=8).digest(), "little")
+
+
+def width_shard(item, seed=0, tier="quick"):
+    n, lo, hi = item
+    t = Tally()
+    counts = t.extra
+    states = set()
+    for seq in width_cases(n, tier)[lo:hi]:
+        k = run_wide(n, seq, seed, t, counts)
+        counts["width_sequences"] += 1
+        if k is not None:
+            states.add(k)
+    if lo == 0:
+        t.sample({"width": n, "ops": width_cases(n, tier)[-1]}, cap=1)
+    t.outcomes.add(packed(states))
+    counts["seam_data_fallback"] += SEAM["data_fallback"]
+    SEAM["data_fallback"] = 0
+    return t
+
+
 # ----------------------------------------------------------------------------- driver
 def run(ctx):
     seed = ctx.seed
@@ -1851,6 +2261,25 @@ def run(ctx):
         bounds["deviation_history_length"] = 8
         bounds["deviation_max_positions"] = {"varied_default": 2, "repeated_default": "2 from from_data, 1 from from_shape"}
         bounds["deviation_histories"] = nh
+    # width dimension: 9..33 fields, every field-set operation, names in 4 orders and 4 containers
+    w_items = []
+    nseq = 0
+    for n in WIDTHS:
+        total = len(width_cases(n, ctx.tier))
+        nseq += total
+        w_items += [(n, lo, min(total, lo + 400)) for lo in range(0, total, 400)]
+    ctx.say(f"width: {nseq} operation sequences (depth 1-2) on Vectors with {list(WIDTHS)} fields")
+    mw_ = ctx.pmap(width_shard, w_items, chunk=1, label="width", seed=seed, tier=ctx.tier)
+    all_states += [np.frombuffer(b, dtype=np.uint64) for b in mw_.outcomes if isinstance(b, bytes)]
+    transitions += int(mw_.extra["transitions"])
+    bounds["width"] = {"num_fields": list(WIDTHS), "sequences": nseq, "orders": list(ORDERS), "containers": ["str"] + list(CONTAINERS)}
+    # global modes: the whole alphabet and the refused operations under warnings-as-errors / np.errstate(all="raise")
+    m_items = [(mi, mode) for mi in range(len(MODE_INITS)) for mode in MODES + (("default",) if MODE_INITS[mi][0].startswith("data_") else ())]
+    ctx.say(f"global modes: {len(m_items)} (initial state, mode) pairs, states of depth <= 1, every event and every refused operation under the mode")
+    mm = ctx.pmap(mode_shard, m_items, chunk=1, label="modes", seed=seed)
+    all_states += [np.frombuffer(b, dtype=np.uint64) for b in mm.outcomes if isinstance(b, bytes)]
+    transitions += int(mm.extra["transitions"])
+    bounds["global_modes"] = {"modes": list(MODES), "initial_states": [[x[0], list(x[1]), x[2]] for x in MODE_INITS], "depth_of_states": 1}
     ex = ctx.tally.extra
     maxd = max([int(k.rsplit("_", 1)[1]) for k, v in ex.items() if k.startswith("reached_depth_") and v > 0] or [0])
     nstates = int(np.unique(np.concatenate(all_states)).size) if all_states else 0
@@ -1894,6 +2323,27 @@ def run(ctx):
 
 
 def replay(ctx, case):
+    t = ctx.tally
+    if "width" in case:
+        print(f"  {case['width']} fields, ops {case['ops']}")
+        run_wide(case["width"], [tuple(op) for op in case["ops"]], ctx.seed, t, t.extra)
+        return
+    if "mode" in case:
+        spec = tuple(case["init"])
+        spec = (spec[0], tuple(spec[1]), spec[2])
+        hist = [tuple(e) for e in case["history"]]
+        S, key, share, ok = run_history(spec, hist, ctx.seed, t, t.extra)
+        print(f"  init {spec!r}, history {hist!r}, then under the global mode {case['mode']}: " + (f"event {case['mode_event']}" if "mode_event" in case else "the refused operations of that state"))
+        if not ok:
+            return
+        blob, M = dump(S), frozen_models(S)
+        if "mode_event" in case:
+            mode_event(blob, M, tuple(case["mode_event"]), case["mode"], hist, spec, ctx.seed, t, t.extra, share)
+        else:
+            T, F = tables(ctx.seed)
+            with mode_ctx(case["mode"]):
+                refusal_battery(lambda: load(blob, M, None), T, F, hist, spec, t, t.extra, share, case_extra={"mode": case["mode"]})
+        return
     spec = tuple(case["init"])
     spec = (spec[0], tuple(spec[1]), spec[2])
     hist = [tuple(e) for e in case["history"]]
